@@ -162,7 +162,7 @@ func (c *Ctx) importTableRule(rule string) {
 			okVal := true
 			explicit, derived := false, false
 			for _, cs := range c.Reach(fn).Cases(mu.Value) {
-				t := c.O.Of(cs.V)
+				t := c.OfInl(cs.V) // a helper returning the last path element is read through
 				hasName := func(x *core.Term) bool {
 					return x.Kind == "binop" && x.Name == "==" && (x.Args[0].IsField("ast.ImportSpec.Name") || x.Args[1].IsField("ast.ImportSpec.Name"))
 				}
